@@ -283,7 +283,10 @@ func withAnon(f *ssa.Function) []*ssa.Function {
 // value identity
 
 // strip removes value-preserving wrappers.
-func strip(v ssa.Value) ssa.Value {
+func strip(v ssa.Value) ssa.Value { return stripN(v, map[*ssa.Phi]bool{}) }
+
+// stripN is strip with the set of phis on the current path (loop-carried phis refer to each other).
+func stripN(v ssa.Value, onPath map[*ssa.Phi]bool) ssa.Value {
 	for {
 		switch x := v.(type) {
 		case *ssa.ChangeInterface:
@@ -295,10 +298,14 @@ func strip(v ssa.Value) ssa.Value {
 		case *ssa.TypeAssert:
 			v = x.X
 		case *ssa.Phi:
+			if onPath[x] {
+				return v
+			}
+			onPath[x] = true
 			var only ssa.Value
 			same := true
 			for _, e := range x.Edges {
-				e = strip(e)
+				e = stripN(e, onPath)
 				if e == x {
 					continue
 				}
